@@ -1,6 +1,7 @@
 package main
 
 import (
+	"path"
 	"fmt"
 	"go/types"
 	"sort"
@@ -383,7 +384,7 @@ func (vc *FuncVC) QueryGoal(ob *Obligation, choice map[string]string, goal strin
 				continue
 			}
 			if ob.Hints != nil && (strings.Contains(c, "(forall ") || strings.Contains(c, "(exists ")) {
-				if l := vc.consLabel[p+"\x00"+c]; !ob.Hints[l] && !(ob.Hints["requires"] && keepEntry[p]) {
+				if l := vc.consLabel[p+"\x00"+c]; !hintAllows(ob.Hints, l) && !(ob.Hints["requires"] && keepEntry[p]) {
 					continue // proof hint: this quantified hypothesis is not among the named ones
 				}
 			}
@@ -609,4 +610,19 @@ func (vc *FuncVC) relevantSpecAxioms(text string) []string {
 		}
 	}
 	return out
+}
+
+// hintAllows: label l is named by the hint set, literally or by an entry with '*' wildcards.
+func hintAllows(h map[string]bool, l string) bool {
+	if h[l] {
+		return true
+	}
+	for k := range h {
+		if strings.Contains(k, "*") {
+			if ok, _ := path.Match(k, l); ok {
+				return true
+			}
+		}
+	}
+	return false
 }
